@@ -29,7 +29,8 @@ Mirrored quirks
   * `CatchScope.declare` ignores a declaration of the catch symbol itself (`var e` inside `catch (e)`).
   * `CatchScope.referenced_symbols` = `{catch_symbol: usage}` updated with the parent's dict (the parent's
     count wins when the parent references the same name).
-  * `resolve`: `result or symbol` (an empty replacement is falsy).
+  * `resolve`: `result or symbol` (an empty replacement is falsy); the look-up of `arguments` stops at the first function
+    scope with a parent that has no replacement for it (the repaired code: every function implicitly binds `arguments`).
   * label identifiers are ordinary `Identifier`s and go through Resolve like variable references.
 
 Outside the modelled domain (explicit `unmodelled` errors): unbalanced scope markers (the global scope popped,
@@ -343,13 +344,18 @@ def nonLocalSymbols : List Anc → List String
     | .func => (ckeys a.refs).filter (fun s => !a.decl.contains s)
     | .catch sym _ => (ckeys (effRefs (a :: rest))).filter (fun s => s != sym)
 
-/-- `resolve(symbol)` along the chain of scopes -/
+def SKind.isFunc : SKind → Bool
+  | .func => true
+  | .catch _ _ => false
+
+/-- `resolve(symbol)` along the chain of scopes.  Every function implicitly binds `arguments`: the look-up of that
+symbol stops at the first function scope (a `Scope` with a parent, not a `CatchScope`) that has no replacement for it. -/
 def resolveChain : List Anc → String → String
   | [], s => s
   | a :: rest, s =>
     match a.remapped.lookup s with
     | some r => if r == "" then s else r
-    | none => resolveChain rest s
+    | none => if s == "arguments" && a.kind.isFunc && !rest.isEmpty then s else resolveChain rest s
 
 mutual
   /-- `child.global_symbols | child.global_symbols_in_children` of a child with ancestors `chain` -/
@@ -428,24 +434,27 @@ mutual
         | .ok rs => .ok (r :: rs)
 end
 
-/-- a remap table per scope id, with the tables of its ancestors (innermost first) -/
-abbrev ChainTable := List (Nat × List (List (String × String)))
+/-- what `Scope.resolve` needs to know of a scope: is it a function scope (not a CatchScope), and its table -/
+abbrev TableEntry := Bool × List (String × String)
+
+/-- per scope id: the scope's entry and those of its ancestors (innermost first) -/
+abbrev ChainTable := List (Nat × List TableEntry)
 
 mutual
-  def chainsOf (up : List (List (String × String))) : RTree → ChainTable
-    | .mk id _ _ _ _ rm children => (id, rm :: up) :: chainsOfList (rm :: up) children
-  def chainsOfList (up : List (List (String × String))) : List RTree → ChainTable
+  def chainsOf (up : List TableEntry) : RTree → ChainTable
+    | .mk id _ kind _ _ rm children => (id, (kind.isFunc, rm) :: up) :: chainsOfList ((kind.isFunc, rm) :: up) children
+  def chainsOfList (up : List TableEntry) : List RTree → ChainTable
     | [] => []
     | c :: cs => chainsOf up c ++ chainsOfList up cs
 end
 
-/-- `Scope.resolve` given the tables of the scope and its ancestors -/
-def resolveTables : List (List (String × String)) → String → String
+/-- `Scope.resolve` given the entries of the scope and its ancestors -/
+def resolveTables : List TableEntry → String → String
   | [], s => s
-  | rm :: rest, s =>
+  | (isFunc, rm) :: rest, s =>
     match rm.lookup s with
     | some r => if r == "" then s else r
-    | none => resolveTables rest s
+    | none => if s == "arguments" && isFunc && !rest.isEmpty then s else resolveTables rest s
 
 /-- the Obfuscator after `prewalk_hook` -/
 structure Final where
@@ -474,7 +483,7 @@ def lookupPath : List (Path × Nat) → Path → Option Nat
   | [], _ => none
   | (p, i) :: rest, q => if p == q then some i else lookupPath rest q
 
-def lookupChain : ChainTable → Nat → Option (List (List (String × String)))
+def lookupChain : ChainTable → Nat → Option (List TableEntry)
   | [], _ => none
   | (i, c) :: rest, j => if i == j then some c else lookupChain rest j
 
